@@ -150,9 +150,17 @@ def srvObs (ws : List String) : String :=
           let evs := ServerCmd.lateCall y (.stop (l == "g"))
           some (if !run.returned then " late-stop=unknown" else if evs.contains (.ackDropped y.nextAck) then " late-stop=resolved" else " late-stop=never")
         else none
-    match lateStop with
-    | none => "bad-op"
-    | some ls => s!"stop={stop} server={server} second={sec} early={bit early} late={bit late} after=none{ls}"
+    -- `flood=N` (paused, a unix listener): the accept thread is busy when it is told to stop; the completion comes after the
+    -- accept thread was joined (`no_dispatch_after_completion`): a connect right after it is refused
+    let flood : Option Nat := match kv ws "flood" with | none => some 0 | some f => f.toNat?
+    let floodOk := match flood with
+      | none => false
+      | some f => f ≤ 2000 && (f == 0 || (paused && !dropFut && (match kv ws "lst" with | some l => l != "tcp" | none => false)))
+    match lateStop, floodOk with
+    | none, _ | _, false => "bad-op"
+    | some ls, true =>
+      let probe := if flood.getD 0 > 0 then (if run.log.contains .joinAccept then " probe=refused" else " probe=connected") else ""
+      s!"stop={stop} server={server} second={sec} early={bit early} late={bit late} after=none{ls}{probe}"
   | _, _, _, _ => "bad-op"
 
 /-- `gate` scenarios (a service whose readiness is switched while the worker is idle), predicted with the
@@ -269,12 +277,16 @@ def sigObs (ws : List String) : String :=
   if kv ws "skip" == some "ports" then "skipped" else
   let sig : Option Src.Signal := match kv ws "sig" with | some "int" => some .Int | some "term" => some .Term | some "quit" => some .Quit | _ => none
   let rtOk := (match kv ws "rt" with | none => true | some r => r == "system" || r == "tokio") &&
-    (match kv ws "lst" with | none => true | some l => l == "tcp" || l == "udsa")
+    (match kv ws "lst" with | none => true | some l => l == "tcp" || l == "udsa") &&
+    (match kv ws "to" with | none => true | some t => t == "process" || t == "acceptor") &&
+    (match kv ws "usr1" with | none => true | some v => v == "1")
+  -- `usr1=1`: a harmless signal handled on the accept thread leaves the accept loop as it is (an interrupted poll is no event)
+  let serves := if kv ws "usr1" == some "1" then " serves=1" else ""
   if !rtOk then "bad-op" else
   match sig, (kv ws "hold").bind parseHolds with
   | some sig, some [_] =>
     let run := ServerCmd.serve ServerCmd.srcWakeFirst 1 [.signal sig]
-    if run.returned then "exit=ok early=0" else "exit=never early=0"
+    (if run.returned then "exit=ok early=0" else "exit=never early=0") ++ serves
   | _, _ => "bad-op"
 
 def parseEnv (a : String) : Option EnvOp :=
